@@ -67,6 +67,8 @@ def shards(tier, seed):
     out += [("twin-item", c) for c in cons.chunk(tw, 8 if tier == "quick" else 16)]
     # struct classes whose reference fields are DECLARED with non-null defaults (default=, default_factory=)
     out += [("declared-defaults", "default"), ("declared-defaults", "factory")]
+    # union references given member objects of one foreign buffer that start at the same offset
+    out.append(("coincident",))
     return out
 
 
@@ -190,10 +192,91 @@ def run_declared_defaults(variant, res):
     return res
 
 
+_co = {}
+
+
+def coincident_classes():
+    import xobjects as xo
+
+    if not _co:
+        F = type("C01coF", (xo.Struct,), {"a": xo.Float64, "b": xo.Int64})
+        W = type("C01coW", (xo.Struct,), {"first": F, "c": xo.Int64, "d": xo.Float64})  # static: W and W.first start at one offset
+        FA = F[2]  # ... and so do a static array and its item 0
+        U = type("C01coU", (xo.UnionRef,), {"_reftypes": (F, W, FA)})
+        H = type("C01coH", (xo.Struct,), {"u1": U, "k": xo.Int64, "u2": U})
+        _co.update(F=F, W=W, FA=FA, U=U, H=H)
+    return _co
+
+
+def run_coincident(res):
+    """union references (array items, struct fields) given member OBJECTS of one foreign buffer that start at the same offset
+    (a static struct and the part nested first in it; a static array and its first item), in every order, next to nulls and to
+    an object given twice: every slot reads back the object it was given, with its own member type"""
+    import itertools
+
+    c = coincident_classes()
+    n = 0
+    for kind in ("np", "ba"):
+        fb = place.traced(kind, 0)
+        fb.allocate(24)
+        w = c["W"](first={"a": 1.5, "b": 7}, c=9, d=2.5, _buffer=fb)
+        fa = c["FA"]([{"a": 3.5, "b": 1}, {"a": 4.5, "b": 2}], _buffer=fb)
+        objs = {"W": (w, ("W", (1.5, 7, 9, 2.5))), "W.first": (w.first, ("F", (1.5, 7))), "FA": (fa, ("FA", ((3.5, 1), (4.5, 2)))), "FA[0]": (fa[0], ("F", (3.5, 1))), "None": (None, None)}
+
+        def rd(x):
+            if x is None:
+                return None
+            nm = type(x).__name__
+            if nm == "C01coF":
+                return ("F", (float(x.a), int(x.b)))
+            if nm == "C01coW":
+                return ("W", (float(x.first.a), int(x.first.b), int(x.c), float(x.d)))
+            return ("FA", tuple((float(x[i].a), int(x[i].b)) for i in range(2)))
+
+        for names in list(itertools.permutations(["W", "W.first", "FA", "FA[0]"], 2)) + [("W", "W.first", "None", "W"), ("FA[0]", "None", "FA", "FA[0]"), ("W.first", "W", "W.first")]:
+            for how in ("array-dyn", "array-static", "struct-fields", "array-from-xobj"):
+                if how == "struct-fields" and len(names) != 2:
+                    continue
+                res.cases += 1
+                res.transitions += 1
+                res.events["construct"] += 1
+                vals = [objs[k][0] for k in names]
+                want = [objs[k][1] for k in names]
+                f_ = dict(root="A" if how != "struct-fields" else "St", form="xobj-members:" + how, decl="coincident", buffer=kind)
+                cid = dict(part="coincident", names=list(names), how=how, buffer=kind)
+                try:
+                    db = place.traced("np", 0)
+                    if how == "array-dyn":
+                        got = [rd(x) for x in c["U"][:](vals, _buffer=db)]
+                    elif how == "array-static":
+                        got = [rd(x) for x in c["U"][len(vals)](vals, _buffer=db)]
+                    elif how == "array-from-xobj":
+                        src = c["U"][:](vals, _buffer=fb)  # (in the members' own buffer: bound, not copied)
+                        got = [rd(x) for x in c["U"][:](src, _buffer=db)]
+                    else:
+                        h = c["H"](u1=vals[0], k=4, u2=vals[1], _buffer=db)
+                        got = [rd(h.u1), rd(h.u2)]
+                except Exception as e:
+                    res.violations.append(common.violation("C01.construct", "raises:" + common.exc_failure(e), f_, cid, repr(e)))
+                    continue
+                res.oracles["readback"] += 1
+                if got != want:
+                    res.outcomes["bad:coincident"] += 1
+                    res.violations.append(common.violation("C01.readback", "value-mismatch", f_, cid, "given %r, read back %r, expected %r" % (list(names), got, want)))
+                else:
+                    res.outcomes["ok:coincident"] += 1
+                    n += 1
+    res.states = res.nontrivial = n
+    res.max_depth = 1
+    return res
+
+
 def run_shard(types, tier, seed):
     res = common.ShardResult()
     if isinstance(types, tuple) and types[0] == "declared-defaults":
         return run_declared_defaults(types[1], res)
+    if isinstance(types, tuple) and types[0] == "coincident":
+        return run_coincident(res)
     seen = set()
     pf = places_for(tier)
     forms = FORMS
@@ -231,6 +314,8 @@ def run_shard(types, tier, seed):
 
 
 def replay(case):
+    if case.get("part") == "coincident":
+        return [v for v in run_coincident(common.ShardResult()).violations if all(v["case"].get(k) == case.get(k) for k in ("names", "how", "buffer"))]
     if case.get("part") == "declared-defaults":
         r = run_declared_defaults(case["variant"], common.ShardResult())
         return [v for v in r.violations if all(v["case"].get(k) == case.get(k) for k in ("r", "u", "how"))]
